@@ -75,6 +75,7 @@ inductive Cmd
   | op (o : Op)
   | search (mk : List Nat → Op) (digest : Nat)   -- choice list to be found: the one reproducing the recorded outcome
   | template
+  | restart (pol : Policy)   -- `N:<policy>`: a new session, fresh pool with another policy on the same chain
   | skip            -- `Z:k:m`: the Go side runs the next k disconnects and m connects as one reorganisation
 
 def findDef (defs : List TxAbs) (id : String) : Option TxAbs := do
@@ -104,6 +105,7 @@ def parseOp? (defs : List TxAbs) (s : String) : Option Cmd :=
     withPrio prio (.connect ⟨cbTx (← cb.toNat?) (← cbOuts.toNat?), txs, ← relTime? mtp⟩)
   | ["U"] => some (.op .disconnect)
   | ["T"] => some .template
+  | ["N", pol] => (parsePolicy? pol).map .restart
   | ["Z", _, _] => some .skip
   | _ => none
 
@@ -178,6 +180,8 @@ def opPrio : Op → List Nat
 def runCmds (pol : Policy) : State → List Cmd → List String
   | _, [] => []
   | st, .skip :: rest => "z" :: runCmds pol st rest
+  | st, .restart pol' :: rest =>
+    ("-;" ++ showPool Pool.empty) :: runCmds pol' { st with pool := Pool.empty } rest
   | st, .template :: rest =>
     -- Spec answer: the pooled set is minable whenever height/MTP have not moved back since admission
     ((if st.pool.pool.all (·.fresh) then "t:1;" else "t:?;") ++ showPool st.pool) :: runCmds pol st rest
